@@ -56,6 +56,16 @@ where
 	fn fork(&self) -> Box<dyn Sut> {
 		Box::new(IW::<C> { inst: self.inst.clone() })
 	}
+	fn fork_into(&self, mut other: Box<dyn Sut>) -> Box<dyn Sut> {
+		if let Some(o) = other.as_any_mut().and_then(|a| a.downcast_mut::<IW<C>>()) {
+			o.inst.clone_from(&self.inst);
+			return other;
+		}
+		self.fork()
+	}
+	fn as_any_mut(&mut self) -> Option<&mut dyn std::any::Any> {
+		Some(self)
+	}
 	fn snapshot(&self, ctl: &SerCtl) -> Option<Result<Value, SimErr>> {
 		Some(simfmt::to_value_ctl(&self.inst, ctl))
 	}
